@@ -11,6 +11,13 @@ dep  = [name, str(version), source, script srcs, stylesheet hrefs, all_files]
 source = [0] | [1, href] | [2, opt package_dir, subdir]
 fs   = [[path segments, bytes], ...]
 
+A scenario is {"deps": [...], "doc_order": [indices into deps in document order; an index may
+occur several times (the same object twice) and two entries of deps may share a name (several
+versions of one dependency)], "nest": [how each occurrence is embedded], "file_form": how the
+file argument of save_html is spelled, ...}.  The dependencies that a saved document HAS are the
+resolved ones (properties C10/C11: one per name, the highest version under version-number ordering,
+the earliest such object on ties, names in order of first occurrence): `resolved_indices`.
+
 All filesystem work happens below one directory made by tempfile.mkdtemp under the system
 temp dir, removed in a finally; nothing is written to /repo or /verif by this module."""
 from __future__ import annotations
@@ -26,6 +33,8 @@ import sys
 import tempfile
 import urllib.parse
 from typing import Any
+
+from packaging.version import Version as _RefVersion   # reference for version-number ordering
 
 from ..common import Ctx, S, unS, differential, run_model, sx_opt
 from .. import trees
@@ -129,6 +138,14 @@ SHAPES = ["fragment", "body", "html_head", "html_nohead", "html_nobody", "html_d
 URL_HREFS = ["https://cdn.example.org/lib", "https://cdn.example.org/lib/", "//cdn.example.org/x",
              "/static/lib/", "https://h.example/a%20b", "http://h.example/x/y/"]
 NONTRIVIAL_CHARS = set(" %#?&'\"<>+\\\t\n;=")
+# how one occurrence of a dependency is embedded in the content (document order is kept):
+# 0 directly, 1 in a div, 2 two levels down, 3 in a TagList inside a div, 4 produced only by the
+# tagify() of a user-defined object, 5 inside a plain Python list child
+NESTS = [0, 1, 2, 3, 4, 5]
+# how the `file` argument of save_html names dirname/index.html: absolute; relative to the current
+# directory (= the document's directory, or its parent); with a redundant x/../ component; through
+# a symbolic link to the document's directory
+FILE_FORMS = ["abs", "rel_cwd", "rel_parent", "dotdot", "symlink"]
 
 
 def rand_fname(rng, ext: str | None = None) -> str:
@@ -229,6 +246,90 @@ def rand_dep(rng, idx: int, force: dict | None = None) -> dict:
     return d
 
 
+def doc_order(sc: dict) -> list[int]:
+    o = sc.get("doc_order")
+    return list(o) if o is not None else list(range(len(sc["deps"])))
+
+
+def resolved_indices(sc: dict) -> list[int]:
+    """the dependencies of the document, from the statements of C10 / C11: every name once, names
+    in order of first occurrence, each represented by the object with the highest version under
+    version-number (not lexical) ordering, the earliest such object on ties"""
+    best: dict[str, int] = {}
+    for i in doc_order(sc):
+        d = sc["deps"][i]
+        j = best.get(d["name"])
+        if j is None:
+            best[d["name"]] = i
+        elif _RefVersion(d["version"]) > _RefVersion(sc["deps"][j]["version"]):
+            best[d["name"]] = i
+    return list(best.values())
+
+
+def variant_files(rng, files: dict) -> dict:
+    """the files of another version of the same library: mostly the same names with other bytes,
+    something dropped, something new"""
+    out: dict = {}
+    for k, (p, c) in enumerate(sorted(files.items())):
+        r = rng.random()
+        if r < 0.2 and len(files) > 1:
+            continue
+        out[p] = list(c) if r > 0.85 else rand_bytes(rng) + [0x76, k % 256]
+    if rng.random() < 0.6:
+        out[rand_relpath(rng)] = rand_bytes(rng)
+    out = prefix_free_files(out)
+    return out or {"a.js": [2]}
+
+
+def add_family(rng, sc: dict) -> None:
+    """several objects for one dependency name (other versions, or the same version again), the
+    same object at several places, two names served from one source directory; any document order"""
+    deps = sc["deps"]
+    r = rng.random()
+    if r < 0.7:
+        base = rng.randrange(len(deps))
+        for _ in range(rng.choice([1, 1, 2])):
+            b = deps[base]
+            kind = rng.choice(["dir", "dir", "dir", "pkg", b["kind"], "url", "none"])
+            force: dict[str, Any] = {"kind": kind}
+            d = rand_dep(rng, len(deps), force)
+            d["name"] = b["name"]
+            if rng.random() < 0.25:
+                d["version"] = b["version"]
+            if kind in ("dir", "pkg") and b["files"] and rng.random() < 0.7:
+                d["files"] = variant_files(rng, b["files"])
+                names = sorted(d["files"])
+                rng.shuffle(names)
+                listed = names[:rng.randrange(0, len(names) + 1)]
+                d["scripts"] = [p for p in listed if p in b["scripts"] or (p not in b["styles"] and rng.random() < 0.6)]
+                d["styles"] = [p for p in listed if p not in d["scripts"]]
+                if d["stale"]:
+                    d["stale"] = prefix_free_files({p: c for p, c in d["stale"].items()})
+            if kind in ("dir", "pkg") and rng.random() < 0.5:
+                d["all_files"] = b["all_files"]
+            deps.append(d)
+    elif r < 0.85:
+        loc = [i for i, d in enumerate(deps) if d["kind"] in ("dir", "pkg") and "share" not in d]
+        if loc:      # another name, served from the same source directory
+            j = rng.choice(loc)
+            b = deps[j]
+            names = sorted(b["files"])
+            rng.shuffle(names)
+            listed = names[:rng.randrange(0, len(names) + 1)]
+            d = rand_dep(rng, len(deps), {"kind": b["kind"]})
+            d.update({"files": dict(b["files"]), "share": j, "scripts": [p for p in listed if rng.random() < 0.6]})
+            d["styles"] = [p for p in listed if p not in d["scripts"]]
+            if d["stale"]:
+                d["stale"] = prefix_free_files(d["stale"])
+            deps.append(d)
+    order = list(range(len(deps)))
+    rng.shuffle(order)
+    for _ in range(rng.choice([0, 0, 1, 1, 2])):      # the same object once more
+        order.insert(rng.randrange(len(order) + 1), rng.randrange(len(deps)))
+    sc["doc_order"] = order
+    sc["nest"] = [rng.choice(NESTS) for _ in order]
+
+
 def rand_scenario(rng, **force) -> dict:
     n = rng.choice([1, 1, 2, 2, 3])
     sc = {"libdir": rng.choice(LIBDIRS), "iv": rng.random() < 0.5,
@@ -237,11 +338,17 @@ def rand_scenario(rng, **force) -> dict:
           "deps": [rand_dep(rng, i) for i in range(n)],
           "outside": prefix_free_files({rand_relpath(rng): rand_bytes(rng) for _ in range(rng.randrange(1, 3))}),
           "missing": None}
+    if rng.random() < 0.4:
+        add_family(rng, sc)
+    if rng.random() < 0.3:
+        sc["file_form"] = rng.choice(FILE_FORMS[1:])
     sc.update(force)
     return sc
 
 
 def nontrivial_scenario(sc: dict) -> bool:
+    if sc.get("doc_order") is not None or sc.get("file_form", "abs") != "abs":
+        return True
     for d in sc["deps"]:
         for p in list(d["files"]) + d["scripts"] + d["styles"]:
             if "/" in p or any(c in NONTRIVIAL_CHARS or ord(c) > 127 for c in p):
@@ -254,6 +361,30 @@ def nontrivial_scenario(sc: dict) -> bool:
 # --------------------------------------------------------------------------------------
 # realising a scenario on disk
 # --------------------------------------------------------------------------------------
+class Widget:
+    """a user-defined object whose content (with its dependency) exists only after tagify()"""
+
+    def __init__(self, *kids):
+        self.kids = kids
+
+    def tagify(self):
+        return div(*self.kids, class_="widget").tagify()
+
+
+def embed(dep, how: int):
+    if how == 1:
+        return div("content", dep)
+    if how == 2:
+        return div(span(span(dep), "x"), "y")
+    if how == 3:
+        return div(TagList("t", dep, span("u")))
+    if how == 4:
+        return Widget("w", dep)
+    if how == 5:
+        return [span("l"), dep]
+    return dep
+
+
 class Realised:
     """a scenario laid out below `top` (an absolute, resolved directory)"""
 
@@ -266,14 +397,22 @@ class Realised:
         self.deps: list[HTMLDependency] = []
         self.msx: list = []          # the dependencies as the model sees them
         self.srcdirs: list[str | None] = []
+        self.order = doc_order(sc)                  # document order (indices, may repeat)
+        self.eff = resolved_indices(sc)             # the document's dependencies, in copy order
+        self.superseded = [i for i in dict.fromkeys(self.order) if i not in self.eff]
+        self.hosts: dict = {}
         os.makedirs(self.docdir)
-        self.configure(sc["libdir"], sc["iv"], sc["host"], sc.get("shape", "fragment"))
+        self.configure(sc["libdir"], sc["iv"], sc["host"], sc.get("shape", "fragment"),
+                       sc.get("file_form", "abs"))
         pkgroot = os.path.join(top, "pkgs")
+        sources: list = []
         for i, d in enumerate(sc["deps"]):
             kind = d["kind"]
             srcdir = None
             msrc: list
-            if kind == "dir":
+            if d.get("share") is not None:          # served from the directory of an earlier one
+                srcdir, source, msrc = sources[d["share"]]
+            elif kind == "dir":
                 srcdir = os.path.join(top, f"src{i}")
                 write_tree(srcdir, list(d["files"].items()))
                 os.makedirs(srcdir, exist_ok=True)
@@ -313,6 +452,7 @@ class Realised:
                 all_files=d["all_files"])
             self.deps.append(dep)
             self.srcdirs.append(srcdir)
+            sources.append((srcdir, source, msrc))
             self.msx.append([S(d["name"]), S(str(dep.version)), msrc,
                              [S(p) for p in d["scripts"]], [S(p) for p in d["styles"]],
                              1 if d["all_files"] else 0])
@@ -323,8 +463,12 @@ class Realised:
         for i, d in enumerate(sc["deps"]):
             t = self.target_dir(i)
             if d["stale_kind"] == "files":
-                write_tree(t, list(d["stale"].items()))
-            elif d["stale_kind"] == "file_at_target":
+                for entry in d["stale"].items():
+                    try:
+                        write_tree(t, [entry])
+                    except OSError:      # clashes with the stale content of a same-named dependency
+                        pass
+            elif d["stale_kind"] == "file_at_target" and not os.path.lexists(t):
                 os.makedirs(os.path.dirname(t), exist_ok=True)
                 with open(t, "wb") as fh:
                     fh.write(b"not a directory")
@@ -335,9 +479,42 @@ class Realised:
             i, p = sc["missing"]
             os.remove(os.path.join(self.srcdirs[i], p))
 
-    def configure(self, libdir, iv: bool, host: str, shape: str = "fragment") -> None:
+    def configure(self, libdir, iv: bool, host: str, shape: str = "fragment", file_form: str = "abs") -> None:
         self.libdir, self.iv, self.host, self.shape = libdir, iv, host, shape
+        self.file_form = file_form
         self.destdir = os.path.join(self.docdir, libdir) if libdir else self.docdir
+
+    def file_arg(self) -> tuple[str | None, str]:
+        """(directory to make current or None, the `file` argument): spellings of self.file"""
+        f = self.file_form
+        if f == "rel_cwd":
+            return (self.docdir, "index.html")
+        if f == "rel_parent":
+            return (self.top, os.path.join("out", "index.html"))
+        if f == "dotdot":
+            os.makedirs(os.path.join(self.docdir, "sibling"), exist_ok=True)
+            return (None, os.path.join(self.top, "out", "sibling", "..", "index.html"))
+        if f == "symlink":
+            link = os.path.join(self.top, "doclink")
+            if not os.path.lexists(link):
+                os.symlink("out", link)
+            return (None, os.path.join(link, "index.html"))
+        return (None, self.file)
+
+    def save(self, host) -> tuple:
+        """save_html on host; (outcome, the file the returned path names or None)"""
+        cwd, arg = self.file_arg()
+        old = os.getcwd()
+        names = None
+        try:
+            if cwd is not None:
+                os.chdir(cwd)
+            out = call(lambda: host.save_html(arg, libdir=self.libdir, include_version=self.iv))
+            if out[0] == "ok" and isinstance(out[1], (str, os.PathLike)):
+                names = os.path.realpath(out[1])
+        finally:
+            os.chdir(old)
+        return out, names
 
     def namever(self, i: int, iv: bool | None = None) -> str:
         d = self.sc["deps"][i]
@@ -357,7 +534,8 @@ class Realised:
     def first_missing(self):
         """(i, p): the first dependency (in copy order) without all_files that lists a file which
         does not exist right now, and that file"""
-        for i, d in enumerate(self.sc["deps"]):
+        for i in self.eff:
+            d = self.sc["deps"][i]
             if not self.is_local(i) or d["all_files"]:
                 continue
             for p in d["scripts"] + d["styles"]:
@@ -381,15 +559,24 @@ class Realised:
             out += fs_sx(snapshot(pdir), pdir)
         return out
 
-    def host_object(self):
-        """the object save_html is called on.  Dependencies stay in document order dep0, dep1, ...
-        (the order in which save_html copies them) in every shape."""
-        deps = list(self.deps)
-        kids = [div("content", deps[0]) if deps else div("content")] + deps[1:] + [span("end")]
+    def host_object(self, reuse: bool = False):
+        """the object save_html is called on; with reuse, the object of an earlier step with the
+        same host and shape (the same document saved again)"""
+        key = (self.host, self.shape)
+        if not (reuse and key in self.hosts):
+            self.hosts[key] = self.build_host()
+        return self.hosts[key]
+
+    def build_host(self):
+        """Dependencies stay in document order (self.order) in every shape."""
+        deps = [self.deps[i] for i in self.order]
+        nest = self.sc.get("nest") or ([1] + [0] * len(deps))
+        emb = [embed(dep, nest[k] if k < len(nest) else 0) for k, dep in enumerate(deps)]
+        kids = (emb if deps else [div("content")]) + [span("end")]
         shape = self.shape
         if shape == "fragment":
             if self.host == "doc":
-                return HTMLDocument(TagList(*kids))
+                return HTMLDocument(TagList(*kids)) if len(deps) % 2 else HTMLDocument(*kids)
             if self.host == "tag":
                 return div(*kids, id="host")
             return TagList(*kids)
@@ -404,7 +591,7 @@ class Realised:
         elif shape == "html_deps_in_head":  # every dependency inside head
             top = tags.html(tags.head(tags.title("t"), *deps), tags.body(div("content"), span("end")))
         elif shape == "html_deps_both":     # first dependency in head, the others in body
-            top = tags.html(tags.head(*deps[:1]), tags.body(div("content"), *deps[1:], span("end")))
+            top = tags.html(tags.head(*deps[:1]), tags.body(div("content"), *emb[1:], span("end")))
         else:
             raise ValueError(shape)
         if self.host == "doc":
@@ -439,7 +626,8 @@ def expected_local(r: Realised) -> dict[str, bytes | None]:
     bytes of the source file, for every script/stylesheet of a local dependency"""
     sc = r.sc
     out: dict[str, bytes | None] = {}
-    for i, d in enumerate(sc["deps"]):
+    for i in r.eff:
+        d = sc["deps"][i]
         if d["kind"] in ("url", "none"):
             continue
         prefix = (r.libdir + "/") if r.libdir else ""
@@ -483,9 +671,10 @@ def run_scenario(ctx: Ctx, sc: dict, top: str, tag: str, mode: str, pending: lis
         r.cleanup_imports()
 
 
-def copy_step(ctx: Ctx, r: Realised, mode: str, pending: list, case: dict) -> None:
-    """mode 'save': save_html on the host object; 'copy': dep.copy_to for each dependency, with
-    the current configuration of r, on whatever the directories contain right now.
+def copy_step(ctx: Ctx, r: Realised, mode: str, pending: list, case: dict, reuse: bool = False) -> None:
+    """mode 'save': save_html on the host object; 'copy': dep.copy_to for each of the document's
+    (resolved) dependencies, with the current configuration of r, on whatever the directories
+    contain right now.
     Applies the oracle and appends (model case, meta, real tree afterwards) to `pending`."""
     if True:
         sc, top = r.sc, r.top
@@ -493,16 +682,17 @@ def copy_step(ctx: Ctx, r: Realised, mode: str, pending: list, case: dict) -> No
         mfs = r.model_fs()
         missing = r.first_missing()
         exp_local = expected_local(r)
-        file_at_target = any(r.is_local(i) and os.path.isfile(r.target_dir(i)) for i in range(len(r.deps)))
+        file_at_target = any(r.is_local(i) and os.path.isfile(r.target_dir(i)) for i in r.eff)
         doc_before = open(r.file, "rb").read() if os.path.isfile(r.file) else None
         t_before = [os.path.lexists(r.target_dir(i)) for i in range(len(r.deps))]
 
         if mode == "save":
-            host = r.host_object()
-            out = call(lambda: host.save_html(r.file, libdir=r.libdir, include_version=r.iv))
+            host = r.host_object(reuse)
+            out, names = r.save(host)
         else:
             out = ("ok", None)
-            for i, dep in enumerate(r.deps):
+            for i in r.eff:
+                dep = r.deps[i]
                 o = call(lambda: dep.copy_to(r.destdir, include_version=r.iv))
                 if o[0] != "ok":
                     out = o
@@ -512,7 +702,7 @@ def copy_step(ctx: Ctx, r: Realised, mode: str, pending: list, case: dict) -> No
         real_after = {os.path.join(top, k): v for k, v in after_all.items()
                       if os.path.join(top, k) != r.file}
         pending.append(([9, mfs, S(r.docdir), sx_opt(None if r.libdir is None else S(r.libdir)),
-                         1 if r.iv else 0, r.msx],
+                         1 if r.iv else 0, [r.msx[i] for i in r.eff]],
                         (mode, case, top, "ok" if out[0] == "ok" else out, r.file), real_after))
 
         # ---------------- oracle (from the property statement) ----------------------------
@@ -541,9 +731,9 @@ def copy_step(ctx: Ctx, r: Realised, mode: str, pending: list, case: dict) -> No
             viol("copying raised although every listed file exists", {"impl_output": out, "expected": "ok"})
             return
         if mode == "save":
-            if out[1] != r.file:
+            if names != r.file or (r.file_form == "abs" and out[1] != r.file):
                 viol(f"save_html on a {r.host} ({r.shape}) did not return the path it wrote",
-                     {"impl_output": repr(out[1]), "expected": r.file})
+                     {"impl_output": repr(out[1]), "expected": r.file_arg()[1]})
             if not os.path.isfile(r.file):
                 viol("save_html did not write the file", {"impl_output": None, "expected": r.file})
                 return
@@ -578,7 +768,8 @@ def copy_step(ctx: Ctx, r: Realised, mode: str, pending: list, case: dict) -> No
                      {"impl_output": sorted(seen), "expected": sorted(exp_local)})
             # URL-sourced dependencies: href/path
             want_abs = []
-            for i, d in enumerate(sc["deps"]):
+            for i in r.eff:
+                d = sc["deps"][i]
                 if d["kind"] == "url":
                     want_abs += [spec_url(sc, d, "", r.libdir, r.iv, p) for p in d["styles"] + d["scripts"]]
             if sorted(absolute) != sorted(want_abs):
@@ -586,7 +777,8 @@ def copy_step(ctx: Ctx, r: Realised, mode: str, pending: list, case: dict) -> No
                      {"impl_output": sorted(absolute), "expected": sorted(want_abs)})
         # target directories: exactly the copied files, byte-identical; stale content gone
         claimed = [r.file] if mode == "save" else []
-        for i, d in enumerate(sc["deps"]):
+        for i in r.eff:
+            d = sc["deps"][i]
             t = r.target_dir(i)
             if d["kind"] in ("url", "none"):
                 if os.path.lexists(t) and not t_before[i]:
@@ -601,6 +793,13 @@ def copy_step(ctx: Ctx, r: Realised, mode: str, pending: list, case: dict) -> No
                         else "copied files differ from their sources (missing or not byte-identical)")
                 viol(what, {"impl_output": sorted(got), "expected": sorted(want)})
             claimed.append(t)
+        # a superseded version of a dependency that is in the document: the statement says nothing
+        # about a directory of its own (name-otherversion); a directory it shares with the
+        # dependency that won (no version in the name, or the same version) is that one's
+        eff_targets = {r.target_dir(i) for i in r.eff}
+        for i in r.superseded:
+            if r.is_local(i) and r.target_dir(i) not in eff_targets:
+                claimed.append(r.target_dir(i))
 
         # everything else untouched
         def outside(snap):
@@ -686,6 +885,37 @@ def shape_scenarios() -> list[dict]:
     return out
 
 
+def family_scenarios() -> list[dict]:
+    """complete cross: document order of several objects for ONE dependency name (an older version,
+    a newer one whose number is lexically smaller, a second object with the newer version's number
+    but other files, the same object twice) and a bystander x include_version x way of calling
+    save_html; libdir, content shape, embedding and the spelling of the file argument rotate"""
+    f_old = {"grid.js": [1, 1], "css/old \u00e9.css": [2], "only old%.js": [3]}
+    f_new = {"grid.js": [9, 9, 9], "css/new#.css": [8]}
+    f_eq = {"grid.js": [7], "css/new#.css": [6, 6], "eq only.js": [5]}
+    orders = [[0, 1, 2], [1, 0, 2], [1, 2, 0], [1, 0, 1], [0, 2, 0], [1, 3, 2], [3, 1, 0], [2, 1, 1, 0, 3]]
+    out = []
+    for order, iv, host in itertools.product(orders, [True, False], ["doc", "tag", "taglist"]):
+        k = len(out)
+        af = k % 4 == 1
+
+        def dep(name, version, files, scripts, styles, kind="dir", all_files=False, stale=None):
+            return {"name": name, "version": version, "kind": kind, "all_files": all_files, "files": dict(files),
+                    "scripts": list(scripts), "styles": list(styles), "href": None,
+                    "stale": dict(stale or {}), "stale_kind": "files" if stale else "none"}
+        deps = [dep("grid", "2.3.4", f_old, ["grid.js", "only old%.js"], ["css/old \u00e9.css"],
+                    stale={"old.txt": [4]} if k % 3 == 0 else None),
+                dep("grid", "10", f_new, ["grid.js"], ["css/new#.css"], kind="pkg" if k % 5 == 2 else "dir",
+                    all_files=af, stale={"grid.js": [0xEE], "css/gone.css": [1]} if k % 2 else None),
+                dep("other", "1.0", {"o p.js": [3, 3]}, ["o p.js"], []),
+                dep("grid", "10.0", f_eq, ["grid.js", "eq only.js"], ["css/new#.css"])]
+        out.append({"libdir": LIBDIRS[k % len(LIBDIRS)], "iv": iv, "host": host, "shape": SHAPES[(k // 2) % len(SHAPES)],
+                    "deps": deps, "doc_order": order, "nest": [NESTS[(k + j) % len(NESTS)] for j in range(len(order))],
+                    "file_form": FILE_FORMS[(k // 3) % len(FILE_FORMS)],
+                    "outside": {"keep.txt": [1], "lib/grid-1.0/x.js": [2]}, "missing": None})
+    return out
+
+
 def exhaustive_scenarios() -> list[dict]:
     """small scope, complete: libdir x include_version x all_files x source kind x stale state x
     every subset of three awkward files being listed (scripts first, stylesheets second)"""
@@ -714,7 +944,7 @@ def exhaustive_scenarios() -> list[dict]:
 # --------------------------------------------------------------------------------------
 def rand_history(rng, pattern: str | None = None) -> dict:
     """a base scenario plus 2-4 copy/save steps separated by 0-2 mutation steps.
-    step ::= ["save"|"copy", libdir, iv, host, shape]
+    step ::= ["save"|"copy", libdir, iv, host, shape, reuse the document object of an earlier step, file form]
            | ["delete", i, p] | ["restore", i, p, bytes] | ["change", i, p, bytes]
            | ["add", i, p, bytes] | ["rename", i, p, q]
            | ["stale", i, rel, bytes, libdir, iv]
@@ -722,7 +952,7 @@ def rand_history(rng, pattern: str | None = None) -> dict:
     all_files dependencies are never deleted or renamed."""
     while True:
         sc = rand_scenario(rng)
-        loc = [i for i, d in enumerate(sc["deps"]) if d["kind"] in ("dir", "pkg")]
+        loc = [i for i, d in enumerate(sc["deps"]) if d["kind"] in ("dir", "pkg") and d.get("share") is None]
         listed_loc = [i for i in loc if not sc["deps"][i]["all_files"]
                       and sc["deps"][i]["scripts"] + sc["deps"][i]["styles"]]
         if loc and (listed_loc or pattern is None or pattern == "allfiles"):
@@ -744,7 +974,9 @@ def rand_history(rng, pattern: str | None = None) -> dict:
         if not same and rng.random() < 0.35:
             cfg[1] = rng.random() < 0.5
         cfg[2] = rng.choice(["doc", "tag", "taglist"])
-        return [rng.choice(["save", "save", "copy"]), cfg[0], cfg[1], cfg[2], rng.choice(SHAPES)]
+        return [rng.choice(["save", "save", "copy"]), cfg[0], cfg[1], cfg[2],
+                rng.choice(SHAPES) if not same or rng.random() < 0.5 else "fragment",
+                rng.random() < 0.5, rng.choice(FILE_FORMS) if rng.random() < 0.3 else "abs"]
 
     def mutation():
         i = rng.choice(loc)
@@ -787,7 +1019,8 @@ def rand_history(rng, pattern: str | None = None) -> dict:
         return ["stale", i, rng.choice([f"zz stale{k}.txt", f"zd{k}/old%.js"]), rand_bytes(rng), cfg[0], cfg[1]]
 
     if pattern == "delete":          # copy, delete a listed file, copy (must raise), restore, copy
-        i = rng.choice(listed_loc)
+        winners = [i for i in listed_loc if i in resolved_indices(sc)]
+        i = rng.choice(winners if winners and rng.random() < 0.75 else listed_loc)
         d = sc["deps"][i]
         p = rng.choice(d["scripts"] + d["styles"])
         steps = [copy_step_desc(True), ["delete", i, p], copy_step_desc(rng.random() < 0.7)]
@@ -833,10 +1066,12 @@ def run_history(ctx: Ctx, h: dict, top: str, tag: str, pending: list) -> int:
     try:
         for k, st in enumerate(h["steps"]):
             if st[0] in ("save", "copy"):
-                r.configure(st[1], st[2], st[3], st[4] if len(st) > 4 else "fragment")
+                r.configure(st[1], st[2], st[3], st[4] if len(st) > 4 else "fragment",
+                            st[6] if len(st) > 6 else "abs")
                 n += 1
                 copy_step(ctx, r, st[0], pending,
-                          {"mode": "history", "scenario": h["scenario"], "steps": h["steps"], "at_step": k})
+                          {"mode": "history", "scenario": h["scenario"], "steps": h["steps"], "at_step": k},
+                          reuse=bool(st[5]) if len(st) > 5 else False)
             else:
                 apply_mutation(r, st)
     finally:
@@ -893,7 +1128,16 @@ def run(ctx: Ctx) -> None:
                 "include_version / host) on the same dependency objects and directories in one process, separated "
                 "by deleting / restoring / changing listed source files, adding / renaming source files, dropping "
                 "stale files into a target directory, with the full oracle and the model comparison after every "
-                "step. A scenario is "
+                "step (optionally on the document object of an earlier step). Documents hold several objects "
+                "for one dependency name (older / newer / numerically-but-not-lexically newer / equal versions "
+                "with other files, kinds and all_files settings), the same object at several places, two names "
+                "served from one source directory, in every document order and embedded directly, in nested "
+                "tags, in a TagList, in a list child or produced only by a user object's tagify(); the "
+                "dependencies a saved document has are the resolved ones of C10/C11 (one per name, highest "
+                "version, earliest on ties, names by first occurrence), so a superseded version must neither "
+                "disturb the winner's directory nor make saving fail; the file argument of save_html is "
+                "absolute, relative to the current directory, has a redundant ../ component or goes through a "
+                "symbolic link. A scenario is "
                 "non-trivial when a file name needs quoting or is nested, or the target has stale content, or a "
                 "source is a package/URL/None, or a file is missing; distinct = distinct canonical scenario "
                 "descriptions / strings.")
@@ -1110,6 +1354,10 @@ def run(ctx: Ctx) -> None:
         if ctx.quick:      # every shape x host x include_version; libdir rotates
             shp = [sc for k, sc in enumerate(shp) if (k // 2) % 4 == (k // 8) % 4]
         go(shp, "save", "save_html, content shape x host x libdir x include_version")
+        fam = family_scenarios()
+        go(fam, "save", "save_html, several objects for one dependency name x document order x include_version x host")
+        fam_miss = [m for sc in (fam[1::7] if ctx.quick else fam[::2]) for m in missing_variants(sc)]
+        go(fam_miss, "save", "missing listed file of a winning / superseded version (save_html)")
         if not ctx.quick:
             ex = exhaustive_scenarios()
             go(ex, "save", "save_html copies, exhaustive small scope")
